@@ -60,12 +60,13 @@ func (h cmsRedis) Equals(o cmsHandle) (bool, error)     { return h.s.Equals(cmsU
 // cmsMulti routes every operation of a Redis sketch through a randomly chosen handle: the creating
 // one or one re-attached from the metadata key (handle-local state must not matter: C09)
 type cmsMulti struct {
-	hs  []cmsRedis
-	rng *rand.Rand
+	hs     []cmsRedis
+	rng    *rand.Rand
+	frozen bool // no further handles are attached (after an Import in place: finding D25)
 }
 
 func (m *cmsMulti) pick() cmsRedis {
-	if len(m.hs) < 3 && m.rng.Intn(6) == 0 {
+	if !m.frozen && len(m.hs) < 3 && m.rng.Intn(6) == 0 {
 		if s, err := gostatix.NewCountMinSketchRedisFromKey(m.hs[0].s.MetadataKey()); err == nil && s != nil {
 			m.hs = append(m.hs, cmsRedis{s})
 		}
@@ -452,6 +453,33 @@ func cmsMergeCase(c *Ctx, rows, cols uint, redis bool) {
 				}
 			}
 			c.branch("merge-chain")
+		}
+	}
+	// a sketch restored from a document and never updated itself is as good a Merge argument as
+	// the sketch that was exported (B still holds exactly b)
+	if docB, err := B.Export(); err == nil {
+		bi, ierr := eqCMS(redis).imp(c, docB)
+		R, _ := newCMS(rows, cols, redis)
+		S2, _ := newCMS(rows, cols, redis)
+		if ierr == nil && bi != nil && R != nil && S2 != nil {
+			cmsFeed(R, pool, ha)
+			cmsFeed(S2, pool, ha)
+			cmsFeed(S2, pool, hb)
+			var merr error
+			res := safely(func() { merr = R.Merge(bi.(cmsHandle)) })
+			if res.panicked || merr != nil {
+				c.fail([]string{"C12", "C10"}, "cms-merge-restored-source", fmt.Sprintf("%s: Merge of a sketch restored by Import failed: %v %v", cfg, res.panicVal, merr), replay)
+				return
+			}
+			for jj, e := range pool {
+				v1, _ := R.Count(e)
+				v2, _ := S2.Count(e)
+				if v1 != v2 {
+					c.fail([]string{"C12", "C10"}, "cms-merge-restored-source", fmt.Sprintf("%s: after merging a sketch restored by Import (and never updated itself) element %d counts %d, the single sketch %d", cfg, jj, v1, v2), replay)
+					return
+				}
+			}
+			c.branch("merge-restored-source")
 		}
 	}
 	if len(ha) > 0 && len(hb) > 0 {
